@@ -174,7 +174,11 @@ func VerifC13GetIndices() {
 // list
 
 func c13GetSlice(mk func(items []Object) Object, unpack func(o Object) ([]Object, bool), kinds int) {
-	n := verifChoice("n", verifBound(4, 7))
+	nmax := verifBound(4, 7)
+	if kinds == 3 {
+		nmax = verifBound(3, 6) // three kinds of bound per position: keep the quick tier small
+	}
+	n := verifChoice("n", nmax)
 	items := c13Items(n, 101)
 	seq := mk(items)
 	a, b, k := c13Bound("start", kinds), c13Bound("stop", kinds), c13Bound("step", kinds)
